@@ -27,6 +27,14 @@ type c19Case struct {
 	Col       int      `json:"col"`       // 1-based reported byte column
 	ReadMode  string   `json:"read_mode"` // ok | error | short
 	NoFinalNL bool     `json:"no_final_newline,omitempty"`
+	// further violations of the same file reported through the same Reporter
+	// after the first one (the reporter keeps per-file state between reports)
+	Seq []c19Pos `json:"then,omitempty"`
+}
+
+type c19Pos struct {
+	Line int `json:"line"`
+	Col  int `json:"col"`
 }
 
 type c19Viol struct {
@@ -38,7 +46,7 @@ func (v c19Viol) GetPos() token.Pos  { return v.pos }
 func (v c19Viol) GetMessage() string { return "synthetic violation" }
 
 // c19Render runs the real reporter on the case and returns the message.
-func c19Render(c c19Case) (msg string, panicked string) {
+func c19Render(c c19Case) (all []string, panicked string) {
 	defer func() {
 		if r := recover(); r != nil {
 			panicked = fmt.Sprint(r)
@@ -73,14 +81,16 @@ func c19Render(c c19Case) (msg string, panicked string) {
 			return []byte(content), nil
 		},
 	}
-	ls := f.LineStart(c.Line)
-	pos := token.Pos(int(ls) + c.Col - 1)
 	rep := reporting.NewReporter(pass, nil)
-	rep.ReportViolation(c19Viol{pos})
-	if len(msgs) != 1 {
-		return "", fmt.Sprintf("expected exactly one reported diagnostic, got %d", len(msgs))
+	for i, p := range append([]c19Pos{{c.Line, c.Col}}, c.Seq...) {
+		ls := f.LineStart(p.Line)
+		pos := token.Pos(int(ls) + p.Col - 1)
+		rep.ReportViolation(c19Viol{pos})
+		if len(msgs) != i+1 {
+			return nil, fmt.Sprintf("expected exactly one reported diagnostic per violation, got %d after %d", len(msgs), i+1)
+		}
 	}
-	return msgs[0], ""
+	return msgs, ""
 }
 
 var c19LineRe = regexp.MustCompile(`^\s*(\d+) \| (.*)$`)
@@ -130,6 +140,8 @@ func c19ValidateExcerpt(c c19Case, rest string) string {
 	caretSeen := 0
 	caretAfter := 0
 	lastNum := 0
+	textStart := map[int]int{} // excerpt row -> byte offset at which the source text starts
+	caretTextStart := -1
 	for _, ol := range outLines {
 		if m := c19LineRe.FindStringSubmatch(ol); m != nil {
 			n, _ := strconv.Atoi(m[1])
@@ -137,6 +149,7 @@ func c19ValidateExcerpt(c c19Case, rest string) string {
 				return fmt.Sprintf("line %d shown twice", n)
 			}
 			shown[n] = m[2]
+			textStart[n] = len(ol) - len(m[2])
 			lastNum = n
 			continue
 		}
@@ -144,7 +157,13 @@ func c19ValidateExcerpt(c c19Case, rest string) string {
 			caretSeen++
 			caretPrefix = m[2]
 			caretAfter = lastNum
+			caretTextStart = len(ol) - len(m[2]) - 1
 		}
+	}
+	// the caret row's margin must be as wide as the margin of the row it points
+	// into: "under the character" is about absolute columns
+	if ts, ok := textStart[c.Line]; ok && caretSeen == 1 && caretTextStart != ts {
+		return fmt.Sprintf("caret row margin is %d wide, the margin of line %d is %d wide: the caret is shifted by %d", caretTextStart, c.Line, ts, caretTextStart-ts)
 	}
 	if _, ok := shown[c.Line]; !ok {
 		return fmt.Sprintf("no excerpt line numbered %d in message", c.Line)
@@ -370,11 +389,21 @@ func clip(s string) string {
 }
 
 func c19Check(c c19Case) string {
-	msg, p := c19Render(c)
+	msgs, p := c19Render(c)
 	if p != "" {
 		return "panic/failure: " + p
 	}
-	return c19Validate(c, msg)
+	for i, pos := range append([]c19Pos{{c.Line, c.Col}}, c.Seq...) {
+		ci := c
+		ci.Line, ci.Col, ci.Seq = pos.Line, pos.Col, nil
+		if why := c19Validate(ci, msgs[i]); why != "" {
+			if i > 0 {
+				return fmt.Sprintf("report %d of %d on the same file (line %d col %d): %s", i+1, len(msgs), pos.Line, pos.Col, why)
+			}
+			return why
+		}
+	}
+	return ""
 }
 
 func init() {
@@ -444,11 +473,42 @@ func TestC19Exhaustive(t *testing.T) {
 					violation(t, id, "c19", "exhaustive", n*1000+col, c, "len=%d col=%d place=%s: %s", n, col, place, why)
 				}
 				if ev.SampleCount(id) < 3 && n > c19Limit && col == n/2+si {
-					msg, _ := c19Render(c)
-					ev.Sample(id, map[string]interface{}{"line_len": n, "col": col, "place": place, "message": msg})
+					msgs, _ := c19Render(c)
+					ev.Sample(id, map[string]interface{}{"line_len": n, "col": col, "place": place, "message": strings.Join(msgs, "\n")})
 				}
 			}
 		}
+	}
+	// tall file: every reported line around the digit-count boundaries of the
+	// line-number margin (9|10, 99|100, 999|1000) x columns 1..4, alone and
+	// followed by a second report at distance -2..+2 through the same reporter
+	if si == 0 {
+		var tall []string
+		for i := 1; i <= 1003; i++ {
+			tall = append(tall, fmt.Sprintf("x%d := %d", i, i))
+		}
+		var tallN int64
+		for _, ln := range []int{1, 2, 3, 7, 8, 9, 10, 11, 12, 97, 98, 99, 100, 101, 102, 997, 998, 999, 1000, 1001, 1002, 1003} {
+			for col := 1; col <= 4; col++ {
+				for d := -3; d <= 2; d++ {
+					c := c19Case{Lines: tall, Line: ln, Col: col, ReadMode: "ok"}
+					if d != -3 {
+						l2 := ln + d
+						if l2 < 1 || l2 > len(tall) {
+							continue
+						}
+						c.Seq = []c19Pos{{l2, 1 + (col % 3)}}
+					}
+					tallN++
+					if why := c19Check(c); why != "" {
+						violation(t, id, "c19", "tall", ln, c, "tall file line=%d col=%d then=%v: %s", ln, col, c.Seq, why)
+					}
+				}
+			}
+		}
+		evals += tallN
+		nontriv += tallN
+		ev.ClassN(id, "tall_file_margin_boundaries_and_report_pairs", tallN)
 	}
 	ev.EvalN(id, evals)
 	ev.DistinctN(id, nontriv)
@@ -500,7 +560,18 @@ func TestC19Rapid(t *testing.T) {
 		for i := 0; i < nl; i++ {
 			lines = append(lines, lineGen.Draw(rt, "line"))
 		}
-		ln := rapid.IntRange(1, nl).Draw(rt, "errline")
+		// sometimes the interesting lines sit deep in a tall file (wider line-number margin)
+		if rapid.IntRange(0, 9).Draw(rt, "tall") < 2 {
+			pad := rapid.SampledFrom([]int{3, 4, 5, 6, 7, 8, 9, 93, 94, 95, 96, 97, 98, 99, 993, 994, 995, 996, 997, 998, 999}).Draw(rt, "pad")
+			var padded []string
+			for i := 0; i < pad; i++ {
+				padded = append(padded, fmt.Sprintf("p%d()", i))
+			}
+			lines = append(padded, lines...)
+			nl = len(lines)
+			ev.Class(id, "rapid_tall_file")
+		}
+		ln := rapid.IntRange(max(1, nl-5), nl).Draw(rt, "errline")
 		src := lines[ln-1]
 		// column: any rune start in the line, or len+1
 		var starts []int
@@ -511,6 +582,25 @@ func TestC19Rapid(t *testing.T) {
 		col := starts[rapid.IntRange(0, len(starts)-1).Draw(rt, "colidx")] + 1
 		mode := rapid.SampledFrom([]string{"ok", "ok", "ok", "ok", "ok", "ok", "error", "short"}).Draw(rt, "read")
 		c := c19Case{Lines: lines, Line: ln, Col: col, ReadMode: mode, NoFinalNL: rapid.Bool().Draw(rt, "nofinalnl")}
+		// further reports on the same file through the same reporter (it keeps per-file state)
+		if mode == "ok" && rapid.IntRange(0, 9).Draw(rt, "sequence") < 4 {
+			for k, n := 0, rapid.IntRange(1, 4).Draw(rt, "nthen"); k < n; k++ {
+				l2 := rapid.IntRange(1, nl).Draw(rt, "thenLine")
+				if rapid.Bool().Draw(rt, "near") {
+					l2 = ln + rapid.IntRange(-2, 2).Draw(rt, "delta")
+					if l2 < 1 || l2 > nl {
+						l2 = ln
+					}
+				}
+				var st []int
+				for i := range lines[l2-1] {
+					st = append(st, i)
+				}
+				st = append(st, len(lines[l2-1]))
+				c.Seq = append(c.Seq, c19Pos{l2, st[rapid.IntRange(0, len(st)-1).Draw(rt, "thenCol")] + 1})
+			}
+			ev.Class(id, "rapid_several_reports_one_reporter")
+		}
 		ev.Eval(id)
 		before := src[:min(col-1, len(src))]
 		hasTab := strings.Contains(before, "\t")
@@ -543,8 +633,8 @@ func TestC19Rapid(t *testing.T) {
 			violation(rt, id, "c19", "rapid", sz, c, "line %d col %d (len %d, read=%s): %s", ln, col, len(src), mode, why)
 		}
 		if ev.SampleCount(id) < 6 && (hasTab || hasMB) && len(src) < 300 && mode == "ok" {
-			msg, _ := c19Render(c)
-			ev.Sample(id, map[string]interface{}{"lines": lines, "line": ln, "col": col, "message": msg})
+			msgs, _ := c19Render(c)
+			ev.Sample(id, map[string]interface{}{"lines": lines, "line": ln, "col": col, "then": c.Seq, "messages": msgs})
 		}
 	})
 }
